@@ -143,7 +143,7 @@ PROPS = {
                   "Post: value == frame value & source behind the frame & fresh state | Pending/transient error => Inv again | EOF inside => UnexpectedEof | clean end only at a boundary. Base case: new() satisfies Inv",
         "outside": "the lifting from one step to poll/drop schedules of any length is an induction ARGUMENT (post-states are Inv states, which are all covered as pre-states), not a query; payloads > 2 bytes; > 2 completed reads in one poll",
         "assumptions": ["Vec::resize replaced by a fixed-capacity growth model", "hook: cfg(minicbor_verif) __verif_from_parts/__verif_state (add-only)"],
-        "groups": [io({"quick": ["c15::c15_q_", "c15::c15_new"], "thorough": ["c15::c15_"]}, timeout={"quick": 800, "thorough": 3600}, mem_gb={"quick": 14, "thorough": 24}, jobs={"quick": 4, "thorough": 3})],
+        "groups": [io({"quick": ["c15::c15_q_", "c15::c15_new"], "thorough": ["c15::c15_"]}, timeout={"quick": 850, "thorough": 3600}, mem_gb={"quick": 20, "thorough": 30}, jobs={"quick": 3, "thorough": 2})],
     },
     "C16": {
         "title": "AsyncWriter delivers whole frames in order under short writes and cancel+sync",
@@ -185,7 +185,7 @@ PROPS = {
         "assumptions": ["agreement is derived by transitivity (argument), each build is decided by its own queries"],
         "groups": [
             core({"quick": ["c05::c05_u8", "c05::c05_u64", "c05::c05_i8", "c05::c05_i64", "c05::c05_int", "c05::c05_char", "c04::c04_datatype", "c04::c04_bytes_definite", "c03::c03_u64", "c03::c03_i64", "c03::c03_simple", "c06::c06_lm", "c06::c06_a1_n3", "c06::c06_a1_n4"],
-                  "thorough": ["c05::c05_", "c04::c04_", "c03::c03_", "c06::c06_lm", "c06::c06_a1_n", "::q::c01", "::q::c07"]}, features=(), timeout={"quick": 400, "thorough": 3600}),
+                  "thorough": ["c05::c05_", "c04::c04_", "c03::c03_", "c06::c06_lm", "c06::c06_a1_n", "::q::c01", "::q::c07"]}, features=(), timeout={"quick": 800, "thorough": 3600}),
             core({"quick": ["c05::c05_u8", "c05::c05_u64", "c05::c05_i8", "c05::c05_i64", "c05::c05_int", "c05::c05_char", "c04::c04_datatype", "c03::c03_u64", "c03::c03_i64", "c03::c03_simple", "c06::c06_lm"],
                   "thorough": ["c05::c05_", "c04::c04_", "c03::c03_", "c06::c06_lm", "c06::c06_a1_n1", "c06::c06_a1_n2", "::q::c01", "::q::c07"]}, features=("alloc",), timeout={"quick": 400, "thorough": 7200}),
             core(["c05::c05_", "c04::c04_", "c03::c03_", "c12::c12_", "c11_gen::q::"], features=("half", "std"), tiers=["thorough"]),
